@@ -27,7 +27,10 @@ RwLog(b) == <<b, "log", "rw">>
 RwIdx(b) == <<b, "index", "rw">>
 RcLog(b) == <<b, "log", "rc">>
 
-EmptyFile == [hdr |-> FALSE, data |-> <<>>, torn |-> ""]
+\* ver: the record format of a log file; for an index file, the format of the log its positions were computed for
+\* (an index left over from before a migration points into the old layout).  Everything here writes format 2;
+\* KlevFSMig.tla adds the migrations that create format-1 files.
+EmptyFile == [hdr |-> FALSE, data |-> <<>>, torn |-> "", ver |-> 2]
 Exists(d, n) == n \in DOMAIN d
 
 \* ---- primitive semantics
@@ -36,9 +39,13 @@ Del(d, n) == [x \in (DOMAIN d) \ {n} |-> d[x]]
 
 Apply(d, p) ==
   CASE p.p = "create" -> IF Exists(d, p.n) THEN d ELSE Put(d, p.n, EmptyFile)
+    [] p.p = "createv" -> Put(d, p.n, [EmptyFile EXCEPT !.ver = p.v, !.hdr = TRUE])     \* create or truncate, format v
     [] p.p = "hdr"    -> IF d[p.n].hdr THEN d ELSE Put(d, p.n, [d[p.n] EXCEPT !.hdr = TRUE])
     [] p.p = "append" -> IF d[p.n].torn # "" THEN Put(d, p.n, [d[p.n] EXCEPT !.torn = "junk"])
-                         ELSE Put(d, p.n, [d[p.n] EXCEPT !.data = Append(@, p.x)])
+                         ELSE LET lg == <<p.n[1], "log", p.n[3]>>
+                                  \* the first item of an index fixes which log format its positions refer to
+                                  v == IF p.n[2] = "index" /\ d[p.n].data = <<>> /\ Exists(d, lg) THEN d[lg].ver ELSE d[p.n].ver
+                              IN Put(d, p.n, [d[p.n] EXCEPT !.data = Append(@, p.x), !.ver = v])
     [] p.p = "rename" -> Put(Del(d, p.n), p.m, d[p.n])
     [] p.p = "remove" -> Del(d, p.n)
     [] OTHER -> d      \* fsync, dirsync, close: no effect on a process-crash image
@@ -47,6 +54,7 @@ RECURSIVE ApplyAll(_, _)
 ApplyAll(d, plan) == IF plan = <<>> THEN d ELSE ApplyAll(Apply(d, Head(plan)), Tail(plan))
 
 Create(n) == <<[p |-> "create", n |-> n], [p |-> "hdr", n |-> n]>>
+CreateV(n, v) == <<[p |-> "createv", n |-> n, v |-> v]>>
 App(n, x) == [p |-> "append", n |-> n, x |-> x]
 Apps(n, xs) == [i \in 1..Len(xs) |-> App(n, xs[i])]
 Fsync(n) == [p |-> "fsync", n |-> n]
@@ -109,13 +117,14 @@ PlanRecoverHead(d, b) ==
   LET f == d[LogN(b)]
       rc == RcLog(b)
       stale == IF FixRecoverStale /\ Exists(d, rc) THEN <<Rem(rc)>> ELSE <<>>
-      copy == stale \o Create(rc) \o Apps(rc, f.data) \o <<Fsync(rc)>>
+      copy == stale \o (IF f.ver = 2 THEN Create(rc) ELSE CreateV(rc, f.ver)) \o Apps(rc, f.data) \o <<Fsync(rc)>>
       swap == IF Corrupted(f) THEN <<Ren(rc, LogN(b))>> ELSE <<Rem(rc)>>
       ix == IF ~Exists(d, IdxN(b)) THEN <<>>
             ELSE LET g == d[IdxN(b)] IN
                  IF g.torn # "" THEN <<Rem(IdxN(b))>>              \* ErrCorrupted: removed, rebuilt later
-                 ELSE IF g.data # f.data
-                      THEN <<Rem(IdxN(b))>> \o Create(IdxN(b)) \o Apps(IdxN(b), f.data) \o <<Fsync(IdxN(b))>>
+                 ELSE IF g.data # f.data \/ (g.data # <<>> /\ g.ver # f.ver)
+                      THEN <<Rem(IdxN(b))>> \o (IF f.ver = 2 THEN Create(IdxN(b)) ELSE CreateV(IdxN(b), f.ver))
+                           \o Apps(IdxN(b), f.data) \o <<Fsync(IdxN(b))>>
                       ELSE <<>>
   IN copy \o swap \o ix
 
@@ -124,7 +133,7 @@ PlanOpenHead(d, b) ==
   LET f == d[LogN(b)]
       hdr == IF ~f.hdr /\ f.data = <<>> THEN <<[p |-> "hdr", n |-> LogN(b)]>> ELSE <<>>
       reix == IF f.data # <<>> /\ (~Exists(d, IdxN(b)) \/ d[IdxN(b)].data = <<>>)
-              THEN Create(IdxN(b)) \o Apps(IdxN(b), f.data) \o <<Fsync(IdxN(b))>>
+              THEN (IF f.ver = 2 THEN Create(IdxN(b)) ELSE CreateV(IdxN(b), f.ver)) \o Apps(IdxN(b), f.data) \o <<Fsync(IdxN(b))>>
               ELSE Create(IdxN(b))
   IN hdr \o reix
 
@@ -150,6 +159,7 @@ SegBroken(d, b) == LET f == d[LogN(b)] IN
                    \/ SegItems(d, b) # f.data
                    \/ (Exists(d, IdxN(b)) /\ d[IdxN(b)].torn # "" /\ b # HeadBase(d))
                    \/ (f.torn = "junk")
+                   \/ (Exists(d, IdxN(b)) /\ d[IdxN(b)].data # <<>> /\ d[IdxN(b)].ver # f.ver)   \* positions of another format
 NextOf(d) == LET b == HeadBase(d) IN IF LogData(d, b) = <<>> THEN b ELSE LastOf(LogData(d, b)) + 1
 
 \* cursor scan as Log.Consume does it: segment by base, after-end hand-off to the next segment's oldest
